@@ -1170,6 +1170,12 @@ fire('c17-revert-f16', 'C17',
 # F15 reverted: the extra rule name pasted between double quotes
 fire('c18-revert-f15', 'C18',
      [(GEN, "        rule_text = ('%(name)s: %(check_str)s\\n' %\n                     {'name': _quote_check_str(file_rule),", "        rule_text = ('\"%(name)s\": %(check_str)s\\n' %\n                     {'name': file_rule,")], 'C18.QUOTED-HOLE')
+# F18 reverted: the name of a file rule pasted between double quotes by the
+# shared YAML formatter (the policy generator hands it the file's entries)
+fire('c18-revert-f18', 'C18',
+     [(GEN, "    text = ('%(name)s: %(check_str)s\\n' %\n            {'name': _quote_check_str(default.name),", "    text = ('\"%(name)s\": %(check_str)s\\n' %\n            {'name': default.name,")], 'C18.QUOTED-HOLE')
+fire('c17-rule-line-check-as-name', 'C17',
+     [(GEN, "            {'name': _quote_check_str(default.name),\n             'check_str': _quote_check_str(default.check_str)})\n\n    if include_help:", "            {'name': _quote_check_str(default.check_str),\n             'check_str': _quote_check_str(default.check_str)})\n\n    if include_help:")], 'C17.RULE-LINE')
 # a re-spelling helper that drops what it does not like is not a re-spelling
 fire('c18-respell-drops', 'C18',
      [(GEN, "        ('\\\\u%04x' if ord(c) < 0x10000 else '\\\\U%08x') % ord(c)", "        ''")], 'C18.SERIALIZED')
@@ -1187,7 +1193,7 @@ silent('c17-wrap-width', 'C17',
 
 # ------------------------------------------------------------------ C18
 fire('c18-revert-f6-yaml', 'C18',
-     [(GEN, "    text = ('\"%(name)s\": %(check_str)s\\n' %\n            {'name': default.name,\n             'check_str': _quote_check_str(default.check_str)})",
+     [(GEN, "    text = ('%(name)s: %(check_str)s\\n' %\n            {'name': _quote_check_str(default.name),\n             'check_str': _quote_check_str(default.check_str)})",
        "    text = ('\"%(name)s\": \"%(check_str)s\"\\n' %\n            {'name': default.name,\n             'check_str': default.check_str})")], 'C18.QUOTED-HOLE')
 fire('c18-revert-f6-extra', 'C18',
      [(GEN, "        rule_text = ('%(name)s: %(check_str)s\\n' %\n                     {'name': _quote_check_str(file_rule),\n                      'check_str': _quote_check_str(check_str)})",
